@@ -175,7 +175,8 @@ def check_dump(d, res, wit):
 
 
 KINDS = ["xor_add", "mul", "div", "mod", "sdiv", "addmod", "mulmod", "exp", "bytes_len", "arr_sum", "two_args", "storage", "signed", "conj3", "unsat",
-         "smod_zero", "mod_zero", "div_zero", "sdiv_zero", "addmod_zero", "mulmod_zero", "storage2", "nested_assert"]
+         "smod_zero", "mod_zero", "div_zero", "sdiv_zero", "addmod_zero", "mulmod_zero", "storage2", "nested_assert",
+         "multi_width", "multi_width", "mul_exp", "div_zero_hit", "mod_zero_hit", "sdiv_zero_hit", "smod_zero_hit", "two_fail"]
 
 
 def smod_tests(rng):
